@@ -28,10 +28,12 @@ META = {
              "larger buffer; distinct by (variant, kernel, presentation, operand contents)"),
     "require": {"quick": ["bc:kernel_calls", "asan:kernel_calls", "asan:canary_detected", "bc:checks_on",
                           "asan:many_calls", "bc:many_calls", "asan:insitu_calls", "bc:insitu_calls",
-                          "one_empty_operand_calls", "class:very_unequal_lengths", "class:lopsided_ladder", "class:operand>65536"],
+                          "one_empty_operand_calls", "class:very_unequal_lengths", "class:lopsided_ladder", "class:operand>65536",
+                          "bc:threads:calls_overlapping_another_thread's_call", "asan:threads:calls_overlapping_another_thread's_call"],
                 "thorough": ["bc:kernel_calls", "asan:kernel_calls", "asan:canary_detected", "bc:checks_on",
                              "asan:many_calls", "bc:many_calls", "asan:insitu_calls", "bc:insitu_calls",
-                             "one_empty_operand_calls"]},
+                             "one_empty_operand_calls",
+                             "bc:threads:calls_overlapping_another_thread's_call", "asan:threads:calls_overlapping_another_thread's_call"]},
     "exhaustive": {"quick": "all 4096 ordered subset pairs of a 6-element universe per (variant, presentation pair)",
                    "thorough": "all 65536 ordered subset pairs of an 8-element universe per (variant, presentation pair)"},
     "assumptions": [
@@ -57,6 +59,8 @@ def shards(tier):
                     "n": 60 if tier == "quick" else 600, "crash_is_violation": True})
         out.append({"label": variant + "-random", "variant": variant, "kind": "random",
                     "n": 600 if tier == "quick" else 8000, "crash_is_violation": True})
+        out.append({"label": variant + "-threads", "variant": variant, "kind": "threads",
+                    "n": 2 if tier == "quick" else 12, "crash_is_violation": True})
     return out
 
 
@@ -219,9 +223,32 @@ def judge(ctx, case):
     if "workload" in case:
         insitu(ctx, g, 1, case["workload"])
         return
+    if case.get("op") == "threads":
+        threads_case(ctx, g, so, case)
+        return
     a = present(numpy.asarray(case["a"], dtype=U32).tolist(), case.get("pl", "own"), ctx.rng)
     b = present(numpy.asarray(case["b"], dtype=U32).tolist(), case.get("pr", "own"), ctx.rng)
     run_pair(ctx, g, so, a, b, set(a.tolist()), set(b.tolist()), case.get("pl", "own"), case.get("pr", "own"))
+
+
+def threads_case(ctx, g, so, case):
+    """Several threads inside the kernels at once, each on its own operands (the cubes call the kernels from a pool)."""
+    def work():
+        return K.threaded_workload(so, numpy.random.default_rng(case["wseed"]), threads=case["threads"], rounds=12, big=case["big"])
+
+    out = g.call("threads_workloads", work, (), case, True, ("threads", case["wseed"], case["threads"], case["big"]))
+    if out is None:
+        return
+    ctx.count("%s:threads:calls" % g.variant, out["calls"])
+    ctx.count("%s:threads:calls_overlapping_another_thread's_call" % g.variant, out["overlapping"])
+    for t, name, e in out["errors"]:
+        if isinstance(e, IndexError):
+            ctx.violation("bc:IndexError:threads:%s" % name, "bounds-checked build, %s while other threads were inside the kernels "
+                          "(each thread has its own operands): %s" % (name, e), case)
+        else:
+            ctx.note("threads workload: %s raised %r (results are C08's matter)" % (name, e))
+    if out["stuck_threads"]:
+        ctx.inconclusive.append("threads workload: %d threads did not finish" % out["stuck_threads"])
 
 
 def run_shard(ctx):
@@ -295,6 +322,13 @@ def run_shard(ctx):
                 return
     elif kind == "insitu":
         insitu(ctx, g, s["n"])
+    elif kind == "threads":
+        for n in range(s["n"]):
+            case = {"op": "threads", "wseed": int(rng.integers(0, 2 ** 31)), "threads": int(K.pickone(rng, [4, 8])),
+                    "big": int(K.pickone(rng, [40000, 150000]))}
+            threads_case(ctx, g, so, case)
+            if ctx.full():
+                return
     if g.noise:
         ctx.extra["asan_reports_outside_kernels"] = g.noise
 
